@@ -251,19 +251,33 @@ Definition show_fs (s : fs) : str :=
 Definition show_ev (e : ev) : str :=
   match e with
   | Ev rm l r => (if rm then 114%N else 117%N) :: show_path l
-                 ++ match r with Some c => GT :: show_path c | None => [BANG] end
+                 ++ match r with
+                    | Some c => GT :: (if path_eq_dec c l then [] else show_path c)
+                    | None => [BANG]
+                    end
   end.
-Definition show_result (r : list ev * fs * bool) : str :=
+(* the after-snapshot is reported as a difference against the before-snapshot: the paths that
+   are gone (in before-order), then every binding of the after-snapshot that the before-snapshot
+   does not have identically (the model never produces one) *)
+Definition gone_paths (s0 s' : fs) : list path :=
+  map fst (filter (fun e => match lookup s' (fst e) with None => true | Some _ => false end) s0).
+Definition show_result (s0 : fs) (r : list ev * fs * bool) : str :=
   let '(t, s, e) := r in
-  join_with SEMI (map show_ev t) ++ AT :: show_fs s ++ AT :: [if e then 49%N else 48%N].
+  join_with SEMI (map show_ev t) ++ AT :: join_with SEMI (map show_path (gone_paths s0 s))
+  ++ AT :: AT :: [if e then 49%N else 48%N].
 
-Definition run_case (b : bstr) : val := VS (show_result (run_engine (dec_case b))).
+Definition run_case (b : bstr) : val :=
+  let i := dec_case b in VS (show_result (u_fs i) (run_engine i)).
 
-(* the after-snapshot inside an implementation result string *)
-Definition result_fs (r : val) : option fs :=
+(* the after-snapshot described by an implementation result string, relative to s0 *)
+Definition result_fs (s0 : fs) (r : val) : option fs :=
   match r with
   | VS s => match split_on AT s with
-            | [_; f; _] => Some (dec_fs f)
+            | [_; g; x; _] =>
+                let gone := dec_paths g in
+                let extra := dec_fs x in
+                Some (extra ++ filter (fun e => negb (mem_path (fst e) gone)
+                                               && negb (mem_path (fst e) (map fst extra))) s0)
             | _ => None
             end
   | _ => None
